@@ -374,6 +374,17 @@ class Ctx:
             out = [self.eq(x, y, tol) for x, y in zip(av.flat, bv.flat)]
             return self.and_(*out)
         if is_sym(a) or is_sym(b):
+            if self.symbolic and not isinstance(a, SBool) and not isinstance(b, SBool):
+                # equal rational functions are recognised syntactically (canonical form; divisors recorded)
+                try:
+                    ca, cb = SCplx.of(a), SCplx.of(b)
+                    if ca is not None and cb is not None:
+                        dr = sym.canon(ca.re - cb.re, self.path)
+                        di = sym.canon(ca.im - cb.im, self.path)
+                        if sym._numeral(dr) == 0 and sym._numeral(di) == 0:
+                            return True
+                except Exception:
+                    pass
             r = (a == b)
             if r is NotImplemented:
                 return False
@@ -658,7 +669,7 @@ class Hyps:
                 if used_fact[i]:
                     continue
                 fresh = frozenset(n for n in fact_names[i] if '!' in n)
-                if (fresh and (fresh & S)) or (not fresh and fact_names[i] <= S):
+                if (fresh and fresh <= S) or (not fresh and fact_names[i] <= S):
                     used_fact[i] = True
                     out.append(f)
                     new = fact_names[i] - S
@@ -887,6 +898,10 @@ def verify_contract(cdef, tier='quick', seed=0):
             continue
         n_ok_paths += 1
         records = list(run.ctx.obls)
+        if path.divisors:
+            # canon() cancelled d * (1/d): every such d must be non-zero under the path condition
+            records.insert(0, {'name': 'divisors-nonzero', 'kind': 'ensures', 'pc': list(path.pc),
+                               'cond': z3.And(*[d != 0 for d in path.divisors.values()])})
         facts = []          # clauses already discharged on this path: usable as hypotheses of later VCs (cut rule)
         if run.status == 'exception':
             records.append({'name': 'no-unexpected-exception', 'kind': 'ensures', 'pc': list(path.pc),
